@@ -227,6 +227,32 @@ fn check_scalar(sa: bool, a: &[u64], s: i128) -> Verdict {
         }
         uforms!(u8, u16, u32, u64, usize, u128);
     }
+    // u128 scalars with the top bit set (not representable as i128): reinterpret a negative scalar's bits
+    if s < 0 {
+        let v = s as u128;
+        let rv = crate::refint::Nat::from_u128(v);
+        let usum = ra.mag.add(&rv);
+        ctx(must_return("a + s", || &u + v).and_then(|r| eq_bu(&r, &usum)), "&BigUint + u128 (>= 2^127)")?;
+        ctx(must_return("s + a", || v + &u).and_then(|r| eq_bu(&r, &usum)), "u128 (>= 2^127) + &BigUint")?;
+        ctx(must_return("a += s", || { let mut t = u.clone(); t += v; t }).and_then(|r| eq_bu(&r, &usum)), "BigUint += u128 (>= 2^127)")?;
+        match ra.mag.cmp(&rv) {
+            Ordering::Less => {
+                ctx(must_panic("a - s", || &u - v), "&BigUint - larger u128 (>= 2^127)")?;
+                ctx(must_return("s - a", || v - &u).and_then(|r| eq_bu(&r, &rv.sub(&ra.mag))), "u128 (>= 2^127) - &BigUint")?;
+            }
+            _ => {
+                ctx(must_return("a - s", || &u - v).and_then(|r| eq_bu(&r, &ra.mag.sub(&rv))), "&BigUint - u128 (>= 2^127)")?;
+                ctx(must_return("a -= s", || { let mut t = u.clone(); t -= v; t }).and_then(|r| eq_bu(&r, &ra.mag.sub(&rv))), "BigUint -= u128 (>= 2^127)")?;
+                if ra.mag != rv {
+                    ctx(must_panic("s - a", || v - &u), "u128 (>= 2^127) - larger &BigUint")?;
+                }
+            }
+        }
+        let wi = ra.add(&RefInt::from_nat(rv.clone()));
+        ctx(must_return("a + s", || &x + v).and_then(|r| eq_bi(&r, &wi)), "&BigInt + u128 (>= 2^127)")?;
+        ctx(must_return("a - s", || &x - v).and_then(|r| eq_bi(&r, &ra.sub(&RefInt::from_nat(rv.clone())))), "&BigInt - u128 (>= 2^127)")?;
+        ctx(must_return("s - a", || v - &x).and_then(|r| eq_bi(&r, &RefInt::from_nat(rv.clone()).sub(&ra))), "u128 (>= 2^127) - &BigInt")?;
+    }
     Ok(Info::new(!ra.is_zero() && s != 0 && (a.len() >= 2 || s.unsigned_abs() > u64::MAX as u128))
         .class("scalar_forms")
         .class_if(underflow, "biguint_underflow")
@@ -246,7 +272,7 @@ impl Property for C01 {
         let small_u = gen::addsub_pair(ml).prop_map(|(a, b)| Case::new("addsub.u", vec![Arg::N(a), Arg::N(b)]));
         let small_i = (any::<bool>(), any::<bool>(), gen::addsub_pair(ml))
             .prop_map(|(sa, sb, (a, b))| Case::new("addsub.i", vec![Arg::Z(sa, a), Arg::Z(sb, b)]));
-        let scal = (any::<bool>(), prop_oneof![50 => gen::nat(3), 20 => gen::nat(0), 30 => (0usize..=3).prop_map(|k| vec![u64::MAX; k])], gen::scalar_i128())
+        let scal = (any::<bool>(), prop_oneof![35 => gen::nat(3), 15 => gen::nat(0), 20 => (0usize..=40).prop_map(|k| vec![u64::MAX; k]), 15 => gen::nat(40), 15 => (1usize..=40).prop_map(|k| { let mut v = vec![0u64; k]; v.push(1); v })], gen::scalar_i128())
             .prop_map(|(sa, a, s)| Case::new("addsub.s", vec![Arg::Z(sa, a), Arg::I(s)]));
         // |big| = |scalar| + d: the underflow edge of the scalar forms
         let scal_edge = (any::<bool>(), gen::scalar_i128(), -2i128..=2).prop_map(|(sa, s, d)| {
